@@ -44,6 +44,22 @@ NEEDS = {
  'C20-a': ('sticky failed flag in Checker', 'failing CheckFailed() followed by a second evaluation'),
  'C20-b': ('callback inside the loop of WithValuesNotEmptyCheck', 'value list with two or more empty entries'),
 }
+import re
+def from_notes(path):
+    """change = title line of the sub-agent's NOTES.md; needs = its paragraph on what is needed to manifest / the trigger."""
+    if not os.path.exists(path):
+        return '', ''
+    txt = open(path).read()
+    lines = txt.splitlines()
+    title = lines[0].lstrip('# ').strip() if lines else ''
+    title = re.sub(r'^C\d\d\s*(/|variant)?\s*\w?\s*[-\u2014]+\s*', '', title)
+    needs = ''
+    m = re.search(r'(?im)^(#+\s*|\*\*)?[^\n]*(needed to manifest|to manifest|trigger|what is needed)[^\n]*\n', txt)
+    if m:
+        rest = txt[m.end():]
+        para = re.split(r'\n#+ ', rest.strip(), 1)[0]
+        needs = ' '.join(para.split())[:700]
+    return title, needs
 res = {}
 p = os.path.join(ROOT, 'RESULTS.tsv')
 if os.path.exists(p):
@@ -55,6 +71,8 @@ for d in sorted(os.listdir(ROOT)):
         continue
     conf = json.load(open(os.path.join(full, 'confirm.json'))) if os.path.exists(os.path.join(full, 'confirm.json')) else {}
     what, needs = NEEDS.get(d, ('', ''))
+    if not what:
+        what, needs = from_notes(os.path.join(full, 'NOTES.md'))
     r = res.get(d, {})
     meta = {
         'seed': d, 'breaks_property': d.split('-')[0], 'change': what, 'needs_to_manifest': needs,
@@ -66,7 +84,7 @@ for d in sorted(os.listdir(ROOT)):
             'demo_failures_without_patch': conf.get('demo_failures_without_patch'),
             'demo_path': conf.get('demo_path'), 'base_commit': conf.get('base_commit'),
         },
-        'check_run': {'command': 'tools/try_seed.sh <patch> %s %s' % (d.split('-')[0], r.get('tier', 'quick')), 'detected': r.get('detected'), 'summary': r.get('violations_line')},
+        'check_run': {'command': 'tools/seed_run.sh %s %s %s  (scratch worktree of /repo HEAD + patch, bin/check with VERIF_REPO)' % (d, d.split('-')[0], r.get('tier', 'quick')), 'detected': r.get('detected'), 'summary': r.get('summary') or r.get('violations_line')},
         'rebased_patch': os.path.exists(os.path.join(full, 'patch.rebased.diff')),
     }
     json.dump(meta, open(os.path.join(full, 'meta.json'), 'w'), indent=1)
